@@ -146,3 +146,32 @@ func (o *Once) Do(f func()) {
 		f()
 	}
 }
+
+// Pool replaces sync.Pool with a deterministic LIFO free list: a Get always
+// receives the most recently Put object. This is the reuse pattern under which
+// "used after Put" and "not reset before Put" defects show; the real pool's
+// per-P caches would make them depend on the runtime's scheduling.
+type Pool struct {
+	New  func() any
+	free []any
+}
+
+func (p *Pool) Get() any {
+	vsched.Sync("pool.get")
+	if n := len(p.free); n > 0 {
+		x := p.free[n-1]
+		p.free = p.free[:n-1]
+		return x
+	}
+	if p.New != nil {
+		return p.New()
+	}
+	return nil
+}
+
+func (p *Pool) Put(x any) {
+	vsched.Sync("pool.put")
+	if x != nil {
+		p.free = append(p.free, x)
+	}
+}
